@@ -408,12 +408,15 @@ class VolSphereFrustumConeIntersection(VolSDFIntersection[VolSphere, VolFrustumC
     """Intersection of sphere and frustum cone."""
 
     def _get_volume(self) -> float:
+        # tolerances are relative to the size of the solids, so the result
+        # does not depend on the length unit
+        atol = 1e-8 * max(self.obj1.radius, self.obj2.r1, self.obj2.r2)
         if (
-            np.allclose(self.obj1.center, self.obj2.c1)
-            and np.allclose(self.obj1.radius, self.obj2.r1)
+            np.allclose(self.obj1.center, self.obj2.c1, atol=atol)
+            and np.allclose(self.obj1.radius, self.obj2.r1, atol=atol)
         ) or (
-            np.allclose(self.obj1.center, self.obj2.c2)
-            and np.allclose(self.obj1.radius, self.obj2.r2)
+            np.allclose(self.obj1.center, self.obj2.c2, atol=atol)
+            and np.allclose(self.obj1.radius, self.obj2.r2, atol=atol)
         ):
             return self.calc_concentric_intersect_volume(self.obj1, self.obj2)
 
@@ -433,16 +436,21 @@ class VolSphereFrustumConeIntersection(VolSDFIntersection[VolSphere, VolFrustumC
 
         h = frustum_cone.height()
         c1, r1 = sphere.center, sphere.radius
-        if np.allclose(c1, frustum_cone.c1) and np.allclose(r1, frustum_cone.r1):
+        atol = 1e-8 * max(r1, frustum_cone.r1, frustum_cone.r2)
+        if np.allclose(c1, frustum_cone.c1, atol=atol) and np.allclose(
+            r1, frustum_cone.r1, atol=atol
+        ):
             c2, r2 = frustum_cone.c2, frustum_cone.r2
-        elif np.allclose(c1, frustum_cone.c2) and np.allclose(r1, frustum_cone.r2):
+        elif np.allclose(c1, frustum_cone.c2, atol=atol) and np.allclose(
+            r1, frustum_cone.r2, atol=atol
+        ):
             c2, r2 = frustum_cone.c1, frustum_cone.r1
         else:
             raise ValueError("sphere and frustum cone is not concentric")
 
         # Fast-Path: The surface of the frustum concentric with the sphere
         # is the surface with smaller radius
-        if r2 - r1 >= -eps:  # r2 >= r1:
+        if r2 - r1 >= -eps * r1:  # r2 >= r1 (relative tolerance):
             v_himisphere = VolSphere.calc_volume_spherical_cap(r1, r1)
             if h >= r1:
                 # The hemisphere is completely inside the frustum cone
